@@ -24,8 +24,10 @@ macro_rules! c05_hash_delta {
             #[kani::stub(crate::attack::bishop, crate::verif_anyboard::stub_bishop)]
             fn $name() {
                 let b0 = ab::any_board_side($color);
+                ab::assume_one_king_each(&b0);
                 ab::assume_ep_consistent(&b0);
                 ab::assume_castling_normal(&b0);
+                ab::assume_opponent_king_safe(&b0);   // no king captures (see C03/make)
                 let mv = if $kind == MoveKind::Null { Move::NULL } else { ab::any_move_of_kind($kind) };
                 let rm = rs::rmove(mv);
                 if $kind != MoveKind::Null { vk::assume(rs::ref_pseudo(&b0.r, rm)); }
